@@ -50,6 +50,8 @@ int vs_active(void);
 void vs_note(const char* fmt, ...) __attribute__((format(printf, 1, 2)));
 // last error lines reported through the runtime's logger (harness reporter calls vs_log)
 void vs_log(int is_error, const char* file, int line, const char* function, const char* msg);
+// harness-level nondeterministic choice (all alternatives are explored, none costs a deviation under preemption bounding)
+int vs_choose(int n);
 // step count of the current execution
 unsigned vs_steps(void);
 
